@@ -26,11 +26,26 @@ PROPS = {
              shards=(8, 16), n=(40, 600),
              trusted=["json-gold expansion / URDNA2015 normalisation (document -> dataset): correspondence only; the harness checks the entries against the abstract document's facts",
                       "go-merkletree-sql (modelled in Gsp.Smt, differentially tested)"]),
+    "C02": P("cases = merklized generated documents with all member paths and systematically derived non-member paths (every proper prefix, one-part extensions, sibling indices n and n+1, "
+             "dropped / inserted indices, a part replaced by a fresh IRI, unrelated paths), plus pure sparse-Merkle-tree op streams (random, small, long-shared-prefix and near-duplicate keys, "
+             "duplicates, beyond-40-level collisions) against go-merkletree-sql; every case is non-trivial (>= 1 member and >= 1 non-member query, or an op stream); distinct = distinct (op,input) hashes",
+             shards=(8, 16), n=(30, 500),
+             trusted=["go-merkletree-sql v2 (modelled in Gsp.Smt; compared op by op: roots, all siblings, aux node, existence, verification)",
+                      "json-gold (document -> dataset), not modelled",
+                      "'the path denotes an entry' is decided through the key hash; two different paths sharing a hash is excluded by the idealised-hash reading (stated where used)"]),
 }
 
 NOT_APPLICABLE = {}
 
 MANIFEST_TEXT = {
+    "C02": dict(
+        text="Lean theorems (Gsp.Props.C02 over Gsp.Mz / Gsp.Smt): for every successfully merklized dataset and every entry, Proof returns an existence proof with the entry's value and the proof "
+             "recomputes Root() from (key hash, value hash) (member_proof); for every path whose key hash is no entry's, Proof returns a non-existence proof that verifies for any value and a nil Value "
+             "(nonmember_proof); Entry/JSONLDType succeed iff the proof is an existence proof (entry_iff_existence); key hashes of a merklized document are pairwise distinct and the tree maps exactly them "
+             "(merklize_tree_spec, from lookup_add / lookup_addAll / add_existing_fails); proof generation is total on trees built by insertion (genProof_total via the Fits invariant). No hash assumption is needed. "
+             "Tie: real Merklizer.Proof/Entry/JSONLDType and go-merkletree-sql GenerateProof/VerifyProof vs the model on the same documents/paths and on raw SMT op streams (all siblings, aux node, existence, roots compared); "
+             "direct predicates: VerifyProof against Root() for every proof, existence == membership, Entry/JSONLDType succeed iff existence.",
+        note="The sparse Merkle tree library is modelled and compared, not verified. Document -> dataset (json-gold) not modelled."),
     "C01": dict(
         text="Lean theorems about the model of EntriesFromRDFWithHasher (Gsp.Rdf): a successful run yields exactly one entry per literal/IRI quad, in order, with the value decoded "
              "according to its datatype (entries_complete, goEntries_values: nothing dropped, duplicated or invented); reference cycles make the bounded parent walk return an error for every "
